@@ -54,6 +54,23 @@ def tt(o):
     return [(t[0], t[1]) for t in o["tokens"]]
 
 
+def _pairs_chunk(exports):
+    out = []
+    memo = {}
+    for rec in exports:
+        a = "".join(rec["a"])
+        b = "".join(rec["b"])
+        pred = [(t["t"], "".join(t["x"])) for t in rec["toks"]]
+        if a not in memo:
+            memo[a] = observe.lex(a)
+        oa = memo[a]
+        ob = observe.lex(b)
+        ok = oa["exc"] is None and ob["exc"] is None and tt(oa) == tt(ob)
+        out.append((a, b, pred, ok, tt(oa) == pred, rec.get("sites", []), None if ok else tt(oa), None if ok else tt(ob),
+                    [oa["exc"], ob["exc"]]))
+    return out
+
+
 def run(pid, tier):
     R = Run(pid, tier)
     extract.write()
@@ -77,30 +94,24 @@ def run(pid, tier):
                 continue
             R.machinery(f"TLC {cfgname}: {b.error}")
             return R.finish()
-        memo = {}
-        for rec in exports:
-            a = "".join(rec["a"])
-            b = "".join(rec["b"])
-            pred = [(t["t"], "".join(t["x"])) for t in rec["toks"]]
-            if a not in memo:
-                memo[a] = observe.lex(a)
-            oa = memo[a]
-            ob = observe.lex(b)
-            R.case((a, b), nontrivial=bool(pred))
-            if oa["exc"] is None and ob["exc"] is None and tt(oa) == tt(ob):
-                R.validated()
-                if tt(oa) != pred:
-                    R.soft(f"pair {a!r}/{b!r}: both runs agree but differ from LexerRespell's prediction")
-                elif len(pred) >= 2 and len(b) > len(a) + 2:
-                    R.sample(dict(plain=a, respelled=b, tokens=pred))
-                continue
-            hit = [s for s in rec.get("sites", []) if s in kk]
-            if hit:
-                for k in hit:
-                    R.known(k)
-                continue
-            R.violation(dict(kind="respell_pair", plain=a, respelled=b, tokens_plain=tt(oa), tokens_respelled=tt(ob),
-                             exc=[oa["exc"], ob["exc"]], predicted=pred))
+        import driverprops
+        chunks = [exports[i:i + 3000] for i in range(0, len(exports), 3000)]
+        for part in driverprops.pool_map(_pairs_chunk, chunks):
+            for (a, b, pred, ok, agree, sites, ta, tb, excs) in part:
+                R.case((a, b), nontrivial=bool(pred))
+                if ok:
+                    R.validated()
+                    if not agree:
+                        R.soft(f"pair {a!r}/{b!r}: both runs agree but differ from LexerRespell's prediction")
+                    elif len(pred) >= 2 and len(b) > len(a) + 2:
+                        R.sample(dict(plain=a, respelled=b, tokens=pred))
+                    continue
+                hit = [s for s in sites if s in kk]
+                if hit:
+                    for k in hit:
+                        R.known(k)
+                    continue
+                R.violation(dict(kind="respell_pair", plain=a, respelled=b, tokens_plain=ta, tokens_respelled=tb, exc=excs, predicted=pred))
     program_level(R, tier)
     R.assumptions += ["respellings are faithful: decoding the respelled text by the C rules gives back the plain text",
                       "splices are inserted only at boundaries between two tokens of the plain run"]
